@@ -18,7 +18,7 @@ LEVEL_TEXT = ("Kernel-checked, for every text: char_index_to_position (formattin
               "delta_line_delta_start = position of the end of the text; decoding the delta-encoded semantic tokens yields exactly the utf16Pos start "
               "and UTF-16 length of every per-line piece of every source token, increasing and non-overlapping; get_index_of_line_char and "
               "find_iso_literal_extraction_under_cursor invert utf16Pos (hover / go-to-definition). The hand models are tied to the repaired Rust "
-              "functions (fix commits 25f08fe, 65d5810, 61b6f0d) by running both on generated documents (several literals, multi-line block-string "
+              "functions (fix commits 25f08fe, 65d5810, 61b6f0d; go-to-definition end to end after 07f7a21) by running both on generated documents (several literals, multi-line block-string "
               "tokens, BMP and astral text before and inside literals, CRLF) and on the unit functions, comparing every answer; the spec is also "
               "evaluated directly on the implementation's answers.")
 LEVEL_NOTE = ("Trusted: Lean kernel; the hand transcription of the five Rust functions (validated by correspondence only); semantic tokens and literal extents "
@@ -88,7 +88,7 @@ def check_distribution(dist, cases):
     need = {"class:doc:accepted-literal": cases // 10, "class:doc:several-literals": 5, "class:doc:multi-line-token": 5,
             "class:doc:non-ascii-before-literal-on-line": 5, "class:doc:astral-before-literal-on-line": 2,
             "class:doc:non-ascii-inside-token": 5, "class:pos.hover": cases // 20, "class:pos.idx": cases // 20,
-            "class:pos.loc": cases // 40}
+            "class:pos.loc": cases // 40, "class:pos.goto": cases // 40}
     for k, n in need.items():
         if dist.get(k, 0) < n:
             return f"{k} = {dist.get(k, 0)} < {n} of {cases} cases"
